@@ -31,12 +31,21 @@
 **                raw65, raw72, raw100, raw127, raw128, raw129, raw200, raw300: structs bigger than the
 **                64/128-byte blocks of a block-wise copy (rawbig selects them).
 **
+** part=containers Array, List, heap and stack Tuple, and an Array and a List built through another history,
+**                holding the same 0..3 elements (every sequence over 3 values of the domain): eq in both
+**                directions => same hash, across kinds and histories; copy(container); List := Array and
+**                Array := List (non-empty targets) are eq to the source and hash like it.
+** part=recycled  (dom recycled) run-time record types without instances created, used, deleted and re-created
+**                with another size - normally at the same address; the first operation on the new type is
+**                hash / assign / swap / copy in turn (see vf_cmp.h).
+**
 ** Parameters: part=all|comma list   dom=all|comma list of int,float,string,type,raw,raw1..raw21,ref,box
 **             (rawall = every raw* domain)
 **             grid=small|large
 ** Case keys (replayable): "hashdata <pat> <len> <align>", "values <dom> <i> <class>",
 **   "pairs <dom> <i> <j>", "copy <dom> <i> <src>", "assign <dom> <i> <j>" (j = -1 zeroed
-**   fresh, -2 default-constructed fresh), "swap <dom> <i> <j> <heap|stack|array|array-stack>", "sort <dom> <order>".
+**   fresh, -2 default-constructed fresh), "swap <dom> <i> <j> <heap|stack|array|array-stack>", "sort <dom> <order>", "containers <dom> <codes|->",
+**   "recycled <hash|assign|swap|copy> <generation>" (replays the sub-family up to that generation).
 */
 
 #include "vf_cmp.h"
@@ -586,6 +595,227 @@ static void part_ops(void) {
   if (H.embed && H.can_sort) for (int order = 0; order < 4; order++) sort_case(order);
 }
 
+/* ---- part containers: Array / List / Tuple holding the same elements ----------------------------
+**
+** For every sequence of length 0..3 over three different values of the element domain: an Array and a
+** List built by push, a heap Tuple and a stack Tuple of the same objects, an Array and a List built
+** through another history (junk element, reserve, push_at at the front in reverse order, pop, shrink).
+** All hold the same elements (checked against the C reference through len/get); whenever two of them
+** are eq in both directions their hashes must be equal (hash is a function of the value alone, across
+** container kinds that compare equal element-wise, and across construction histories); copy(c) and
+** assign into the other kind (List := Array, Array := List, targets not empty before) are eq to the
+** source and hash like it.
+*/
+#define NCONT 6
+static const char* cont_name[NCONT] = { "array", "list", "tuple", "stack-tuple", "array-history", "list-history" };
+
+static int cont_holds(var c, const int* seq, int SL) {
+  if (len(c) != (size_t)SL) return 0;
+  for (int k = 0; k < SL; k++) if (!h_same(get(c, $I(k)), seq[k])) return 0;
+  return 1;
+}
+
+static void container_case(const int* e, var* E, const int* code, int SL) {
+  char cs[8] = "-"; for (int k = 0; k < SL; k++) { cs[k] = (char)('0' + code[k]); cs[k+1] = 0; }
+  char ds[160]; size_t o = 0; ds[0] = 0;
+  for (int k = 0; k < SL; k++) { char d1[40]; h_desc(e[code[k]], d1, sizeof d1); o += snprintf(ds + o, sizeof ds - o, "%s%s", k ? " " : "", d1); if (o >= sizeof ds) { o = sizeof ds - 1; break; } }
+  if (!begin_case(ds, "containers %s %s", H.name, cs)) return;
+  int seq[3]; for (int k = 0; k < SL; k++) seq[k] = e[code[k]];
+  int junk = e[(SL ? code[0] + 1 : 0) % 3];
+  var C[NCONT];
+  C[0] = new_raw(Array, H.type); for (int k = 0; k < SL; k++) push(C[0], E[code[k]]);
+  C[1] = new_raw(List, H.type);  for (int k = 0; k < SL; k++) push(C[1], E[code[k]]);
+  /* a Tuple finds its cursor by pointer identity (known finding D16): every position gets an object of its own */
+  C[2] = new_raw(Tuple);         for (int k = 0; k < SL; k++) push(C[2], E[3 * (k + 1) + code[k]]);
+  STACKBUF(s0); STACKBUF(s1); STACKBUF(s2);
+  char* sb[3] = { s0, s1, s2 };
+  var items[4] = { Terminal, Terminal, Terminal, Terminal };
+  for (int k = 0; k < SL; k++) items[k] = mk_stack(sb[k], seq[k]);
+  C[3] = $(Tuple, items);
+  (void)junk;
+  C[4] = new_raw(Array, H.type); push(C[4], E[(SL ? code[0] + 1 : 0) % 3]); resize(C[4], 16);
+  for (int k = SL - 1; k >= 0; k--) push_at(C[4], E[code[k]], $I(0));
+  pop(C[4]); if (SL > 0) resize(C[4], (size_t)SL);
+  C[5] = new_raw(List, H.type); push(C[5], E[(SL ? code[0] + 1 : 0) % 3]);
+  for (int k = SL - 1; k >= 0; k--) push_at(C[5], E[code[k]], $I(0));
+  pop(C[5]);
+  uint64_t hc[NCONT];
+  for (int a = 0; a < NCONT; a++) {
+    vf.evaluations++;
+    if (!cont_holds(C[a], seq, SL)) vf_violation(L(H.name, cont_name[a], "container-does-not-hold-the-elements"), NULL, "the %s does not hold the %d elements it was built from (len/get against the C reference)", cont_name[a], SL);
+    hc[a] = hash(C[a]);
+  }
+  for (int a = 0; a < NCONT; a++) for (int b = a + 1; b < NCONT; b++) {
+    char cls[48]; snprintf(cls, sizeof cls, "%s-vs-%s", cont_name[a], cont_name[b]);
+    volatile bool e1 = false, e2 = false;
+    var ex = VF_CATCH(e1 = eq(C[a], C[b]); e2 = eq(C[b], C[a]));
+    vf.evaluations += 2;
+    if (ex) { vf_violation(L(H.name, cls, "eq-raises"), NULL, "eq raised %s", vf_exc_name(ex)); continue; }
+    if (!e1 || !e2) vf_violation(L(H.name, cls, "same-elements-not-eq"), NULL, "a %s and a %s holding the same %d elements: eq = %d / %d", cont_name[a], cont_name[b], SL, (int)e1, (int)e2);
+    else if (hc[a] != hc[b]) vf_violation(L(H.name, cls, "eq-but-hash-differs"), NULL, "a %s and a %s holding the same %d elements are eq but hash to %016" PRIx64 " and %016" PRIx64, cont_name[a], cont_name[b], SL, hc[a], hc[b]);
+    if (SL > 0) vf.nontrivial++;
+  }
+  /* copy of each heap container */
+  for (int a = 0; a < 3; a++) {
+    char cls[48]; snprintf(cls, sizeof cls, "copy-of-%s", cont_name[a]);
+    volatile var yv = NULL;
+    var ex = VF_CATCH(yv = copy(C[a]));
+    var y = yv;
+    vf.evaluations += 3;
+    if (ex) { vf_violation(L(H.name, cls, "raises"), NULL, "copy raised %s", vf_exc_name(ex)); continue; }
+    if (!cont_holds(y, seq, SL)) vf_violation(L(H.name, cls, "container-does-not-hold-the-elements"), NULL, "copy(%s) does not hold the source's elements", cont_name[a]);
+    else if (!eq(y, C[a]) || !eq(C[a], y)) vf_violation(L(H.name, cls, "not-eq"), NULL, "copy(%s) is not eq to its source", cont_name[a]);
+    else if (hash(y) != hc[a]) vf_violation(L(H.name, cls, "hash-differs"), NULL, "copy(%s) hashes to %016" PRIx64 ", the source to %016" PRIx64, cont_name[a], hash(y), hc[a]);
+    del(y);
+    vf.nontrivial++;
+  }
+  /* assign into the other kind, the target holding something else before */
+  for (int dir = 0; dir < 2; dir++) {
+    const char* cls = dir ? "array-assigned-from-list" : "list-assigned-from-array";
+    var src = dir ? C[1] : C[0];
+    var dst = dir ? (var)new_raw(Array, H.type) : (var)new_raw(List, H.type);
+    push(dst, E[(SL ? code[0] + 1 : 0) % 3]); push(dst, E[(SL ? code[0] + 2 : 1) % 3]);
+    var ex = VF_CATCH(assign(dst, src));
+    vf.evaluations += 3;
+    if (ex) vf_violation(L(H.name, cls, "raises"), NULL, "assign raised %s", vf_exc_name(ex));
+    else if (!cont_holds(dst, seq, SL)) vf_violation(L(H.name, cls, "container-does-not-hold-the-elements"), NULL, "after assign the target does not hold the source's %d elements", SL);
+    else if (!eq(dst, src) || !eq(src, dst)) vf_violation(L(H.name, cls, "not-eq"), NULL, "after assign the target is not eq to the source");
+    else if (hash(dst) != hash(src)) vf_violation(L(H.name, cls, "hash-differs"), NULL, "after assign the target hashes to %016" PRIx64 ", the source to %016" PRIx64, hash(dst), hash(src));
+    del_raw(dst);
+    vf.nontrivial++;
+  }
+  if (vf_want_sample()) vf_sample("%s | %s -> hash %016" PRIx64, ckey, ds, hc[0]);
+  for (int a = 0; a < NCONT; a++) if (a != 3) del_raw(C[a]);
+}
+
+static void part_containers(void) {
+  if (!H.embed) return;
+  int n = H.n, e[3], ne = 0;
+  /* three different element values: the first, the last, one from the middle of the grid */
+  int cand[3] = { 0, n - 1, n / 2 };
+  for (int c = 0; c < 3; c++) for (int d = 0; d < n && ne <= c; d++) {
+    int x = (cand[c] + d) % n, dup = 0;
+    for (int q = 0; q < ne; q++) if (h_refeq(e[q], x)) dup = 1;
+    if (!dup) e[ne++] = x;
+  }
+  if (ne < 3) return;
+  var E[12];                            /* E[0..2]: one object per value; E[3(p+1)+v]: value v for Tuple position p */
+  for (int k = 0; k < 12; k++) { STACKBUF(wb); E[k] = new_raw_with(H.type, tuple(mk_stack(wb, e[k % 3]))); }
+  int code[3];
+  for (int SL = 0; SL <= 3; SL++) {
+    int cnt = 1; for (int q = 0; q < SL; q++) cnt *= 3;
+    for (int c = 0; c < cnt; c++) {
+      int x = c; for (int k = SL - 1; k >= 0; k--) { code[k] = x % 3; x /= 3; }
+      container_case(e, E, code, SL);
+    }
+  }
+  for (int k = 0; k < 12; k++) drop_raw(E[k]);
+}
+
+/* ---- part recycled: run-time record types deleted and re-created with another size (vf_cmp.h) ------
+**
+** Sub-families by the operation that is the very FIRST library call on objects of the new type:
+** 0 hash, 1 assign, 2 swap, 3 copy.  Afterwards all of them run over all value pairs.
+*/
+static uint64_t rec_generations, rec_same_address;
+static const char* rec_family_name[] = { "hash", "assign", "swap", "copy" };
+
+static void rec_check_assign(var T, size_t size, int i, int j, const char* trans, const char* kase, const char* pre) {
+  static char X[VFR_BLOCK] __attribute__((aligned(16))), Y[VFR_BLOCK] __attribute__((aligned(16)));
+  char sym[64];
+  var x = vfr_obj(X, T, i & 1, size, i, 0xA5), y = vfr_obj(Y, T, (j + 1) & 1, size, j, 0x5A);
+  var ex = VF_CATCH(assign(y, x));
+  vf.evaluations += 3;
+  if (ex) { snprintf(sym, sizeof sym, "%sassign-raises", pre); vf_violation(L("recycled-type", trans, sym), kase, "assign raised %s", vf_exc_name(ex)); return; }
+  if (!vfr_holds(y, size, i)) { snprintf(sym, sizeof sym, "%sassign-value-differs", pre); vf_violation(L("recycled-type", trans, sym), kase, "assign(y,x) on a %zu-byte run-time type: y (held value %d) does not hold x's value %d over all %zu bytes", size, j, i, size); }
+  if (!vfr_holds(x, size, i)) { snprintf(sym, sizeof sym, "%sassign-source-changed", pre); vf_violation(L("recycled-type", trans, sym), kase, "assign changed its source"); }
+  if (!vfr_canary_ok(y, size, 0x5A) || !vfr_canary_ok(x, size, 0xA5)) { snprintf(sym, sizeof sym, "%sassign-writes-beyond-object", pre); vf_violation(L("recycled-type", trans, sym), kase, "assign on a %zu-byte run-time type changed bytes behind the objects", size); }
+}
+
+static void rec_check_swap(var T, size_t size, int i, int j, const char* trans, const char* kase, const char* pre) {
+  static char X[VFR_BLOCK] __attribute__((aligned(16))), Y[VFR_BLOCK] __attribute__((aligned(16)));
+  char sym[64];
+  var x = vfr_obj(X, T, i & 1, size, i, 0xA5), y = vfr_obj(Y, T, (j + 1) & 1, size, j, 0x5A);
+  var ex = VF_CATCH(swap(x, y));
+  vf.evaluations += 2;
+  if (ex) { snprintf(sym, sizeof sym, "%sswap-raises", pre); vf_violation(L("recycled-type", trans, sym), kase, "swap raised %s", vf_exc_name(ex)); return; }
+  if (!vfr_holds(x, size, j) || !vfr_holds(y, size, i)) { snprintf(sym, sizeof sym, "%sswap-values-not-exchanged", pre); vf_violation(L("recycled-type", trans, sym), kase, "swap on a %zu-byte run-time type: values %d and %d were not exchanged over all %zu bytes", size, i, j, size); }
+  if (!vfr_canary_ok(x, size, 0xA5) || !vfr_canary_ok(y, size, 0x5A)) { snprintf(sym, sizeof sym, "%sswap-writes-beyond-object", pre); vf_violation(L("recycled-type", trans, sym), kase, "swap on a %zu-byte run-time type changed bytes behind the objects", size); }
+}
+
+static void rec_check_hash(var T, size_t size, int i, const char* trans, const char* kase, const char* pre) {
+  static char X[VFR_BLOCK] __attribute__((aligned(16))), Y[VFR_BLOCK] __attribute__((aligned(16)));
+  char sym[64];
+  var x = vfr_obj(X, T, 0, size, i, 0xA5), y = vfr_obj(Y, T, 1, size, i, 0x5A);
+  uint64_t hx = hash(x), hy = hash(y);
+  vf.evaluations++;
+  if (hx != hy) { snprintf(sym, sizeof sym, "%sequal-values-hash-differs", pre); vf_violation(L("recycled-type", trans, sym), kase, "two %zu-byte objects holding value %d (different bytes BEHIND them) hash to %016" PRIx64 " and %016" PRIx64, size, i, hx, hy); }
+}
+
+static void rec_check_copy(var T, size_t size, int i, const char* trans, const char* kase, const char* pre) {
+  static char X[VFR_BLOCK] __attribute__((aligned(16)));
+  char sym[64];
+  var x = vfr_obj(X, T, i & 1, size, i, 0xA5);
+  volatile var yv = NULL;
+  var ex = VF_CATCH(yv = copy(x));
+  var y = yv;
+  vf.evaluations += 3;
+  if (ex) { snprintf(sym, sizeof sym, "%scopy-raises", pre); vf_violation(L("recycled-type", trans, sym), kase, "copy raised %s", vf_exc_name(ex)); return; }
+  if (type_of(y) != T || !vfr_holds(y, size, i)) { snprintf(sym, sizeof sym, "%scopy-value-differs", pre); vf_violation(L("recycled-type", trans, sym), kase, "copy of a %zu-byte run-time struct (value %d) does not hold the value over all %zu bytes", size, i, size); }
+  else if (!eq(y, x) || !eq(x, y)) { snprintf(sym, sizeof sym, "%scopy-not-eq", pre); vf_violation(L("recycled-type", trans, sym), kase, "copy is not eq to its source"); }
+  else if (hash(y) != hash(x)) { snprintf(sym, sizeof sym, "%scopy-hash-differs", pre); vf_violation(L("recycled-type", trans, sym), kase, "copy hashes differently from its source"); }
+  if (!vfr_holds(x, size, i) || !vfr_canary_ok(x, size, 0xA5)) { snprintf(sym, sizeof sym, "%scopy-source-changed", pre); vf_violation(L("recycled-type", trans, sym), kase, "copy changed its source or the bytes behind it"); }
+  del(y);
+}
+
+static void recycled_family(int fam, int upto) {
+  uintptr_t prev_addr = 0; size_t prev_size = 0;
+  int G = 2 * VFR_NSIZES;
+  for (int g = 0; g < G && g <= upto; g++) {
+    size_t size = vfr_sizes[g % VFR_NSIZES];
+    int second_pass = (g / VFR_NSIZES) & 1;
+    const char* trans = prev_size == 0 ? "first-type" : size > prev_size ? "larger-than-previous" : "smaller-than-previous";
+    snprintf(ckey, sizeof ckey, "recycled %s %d", rec_family_name[fam], g);
+    vf_set_cur("%s | size=%zu previous size=%zu", ckey, size, prev_size);
+    char kase[128]; snprintf(kase, sizeof kase, "%s", vf_cur);
+    var T = vfr_type_new(g);
+    int same = prev_addr != 0 && (uintptr_t)T == prev_addr;
+    rec_generations++; if (same) rec_same_address++;
+    vf.executions++;
+    /* the very first operation on the new type: first pass a value differing from the base only in its LAST byte
+    ** (a stale smaller size loses it), second pass equal values / the base (a stale larger size reaches behind the object) */
+    int fi = second_pass ? 0 : 5;
+    switch (fam) {
+      case 0: rec_check_hash(T, size, fi, trans, kase, "first-"); break;
+      case 1: rec_check_assign(T, size, fi, 0, trans, kase, "first-"); break;
+      case 2: rec_check_swap(T, size, fi, 0, trans, kase, "first-"); break;
+      case 3: rec_check_copy(T, size, fi, trans, kase, "first-"); break;
+    }
+    for (int i = 0; i < VFR_NVALS; i++) {
+      rec_check_hash(T, size, i, trans, kase, "");
+      rec_check_copy(T, size, i, trans, kase, "");
+      for (int j = 0; j < VFR_NVALS; j++) { rec_check_assign(T, size, i, j, trans, kase, ""); rec_check_swap(T, size, i, j, trans, kase, ""); }
+    }
+    if (same && size != prev_size) vf.nontrivial++;
+    if (vf_want_sample()) vf_sample("%s (%s)", kase, same ? "type block recycled at the same address" : "type at a new address");
+    prev_addr = (uintptr_t)T; prev_size = size;
+    del_raw(T);
+  }
+}
+
+static void part_recycled(void) {
+  vf.phase = "hash-recycled-type";
+  if (vf.replay) {
+    char dn[16], fam[16]; int g = -1;
+    if (sscanf(vf.replay, "%15s %15s %d", dn, fam, &g) != 3 || strcmp(dn, "recycled") != 0) return;
+    for (int f = 0; f < 4; f++) if (!strcmp(fam, rec_family_name[f])) recycled_family(f, g);
+    return;
+  }
+  for (int f = 0; f < 4; f++) recycled_family(f, 1 << 30);
+  vf_extra("recycled_types", "{\"generations\": %" PRIu64 ", \"new_type_at_the_address_of_the_deleted_one\": %" PRIu64 "}", rec_generations, rec_same_address);
+  if (rec_same_address == 0) vf_note("recycled run-time types: the allocator never handed the deleted Type block back (sanitizer quarantine?); the same-address cases were NOT exercised in this instance and are not counted");
+}
+
 /* ---- Type: static type objects against heap-allocated twins with the same name ------------------- */
 
 static void part_types(const char* parts) {
@@ -669,9 +899,11 @@ int main(int argc, char** argv) {
     if (part_on(parts, "values")) part_values();
     if (part_on(parts, "pairs")) part_pairs();
     if (part_on(parts, "ops")) part_ops();
+    if (part_on(parts, "containers")) part_containers();
     vf_extra(all[q], "{\"values\": %d, \"cases\": %" PRIu64 ", \"oracle_evaluations\": %" PRIu64 "}", H.n, vf.executions - ex0, vf.evaluations - ev0);
   }
   if (vfg_dom_selected(doms, "type")) part_types(parts);
+  if (vfg_dom_selected(doms, "recycled") && part_on(parts, "recycled")) part_recycled();
   if (vf.replay && vf.executions == 0) vf_note("replay case not found: %s", vf.replay);
   vf_finish();
   return 0;
